@@ -141,22 +141,34 @@ def AVal.append (v : Val) : AVal → AVal
 def newObj (mm : Nat → List MetaAttr) (cls : Nat) (ks : List PT) : HObj :=
   { cls := cls, parent := none, pos := posL ks, posEnd := endL ks (posL ks), attrs := (mm cls).map initAttr }
 
+/-- Python truthiness of an attribute value at a moment of the construction (`h` = the objects
+as they are then): `None` is falsy, a converted match has the truthiness recorded in the tree,
+an object is asked — `tr h i` is what `bool(obj)` answers.  Generic textX objects are always
+truthy; a user class (`classes=[…]`) may define `__bool__` / `__len__` in any way, in
+particular depending on the attributes collected so far, hence an arbitrary function of the
+heap and the object. -/
+def Val.truthyIn (tr : Heap → Nat → Bool) (h : Heap) : Val → Bool
+  | .none => false
+  | .prim t => t
+  | .obj i => tr h i
+
 mutual
 /-- `process_node(node)`; `none` = a Python exception (IndexError / KeyError / Multiple
-assignments), which aborts the load. -/
-def processNode (mm : Nat → List MetaAttr) : PT → St → Option (Val × St)
+assignments), which aborts the load.  `tr` = truthiness of objects (`Val.truthyIn`): the only
+place where the code asks an object for its truth value is the "Multiple assignments" guard. -/
+def processNode (tr : Heap → Nat → Bool) (mm : Nat → List MetaAttr) : PT → St → Option (Val × St)
   | .term _ _ _ t, s => some (.prim t, s)
   | .nt (.mat t) _, s => some (.prim t, s)
   | .nt .abs ks, s =>
     match ks with
     | [] => none
-    | [k] => processNode mm k s
-    | k :: k2 :: rest => processFirstNT mm (k :: k2 :: rest) s
+    | [k] => processNode tr mm k s
+    | k :: k2 :: rest => processFirstNT tr mm (k :: k2 :: rest) s
   | .nt (.obj cls) ks, s =>
     let id := s.next
     -- inst allocated, attributes initialised, span set, pushed on `_inst_stack`
     let s1 : St := { heap := s.heap ++ [newObj mm cls ks], stack := id :: s.stack }
-    match processKids mm ks s1 with
+    match processKids tr mm ks s1 with
     | none => none
     | some s2 =>
       -- `_inst_stack.pop()`, then `if parser._inst_stack: obj_attrs.parent = parser._inst_stack[-1][0]`
@@ -179,53 +191,55 @@ def processNode (mm : Nat → List MetaAttr) : PT → St → Option (Val × St)
           match cur, ks with
           | _, [] => none
           | .one v, k :: _ =>
-            if v.truthy then none   -- "Multiple assignments to attribute"
+            -- `if attr_value and not isinstance(attr_value, list)`: "Multiple assignments to attribute";
+            -- `attr_value` may be an object of a user class with its own `__bool__` / `__len__`
+            if v.truthyIn tr s.heap then none
             else
-              match processNode mm k s with
+              match processNode tr mm k s with
               | none => none
               | some (val, s1) =>
                 if m.cont then some (.none, { s1 with heap := s1.heap.updAttr top a (AVal.assign val) })
                 else some (.none, s1)   -- ObjCrossRef recorded, resolved later
           | .many _, k :: _ =>
-            match processNode mm k s with
+            match processNode tr mm k s with
             | none => none
             | some (val, s1) =>
               if m.cont then some (.none, { s1 with heap := s1.heap.updAttr top a (AVal.append val) })
               else some (.none, s1)
         | .many =>
-          match processItems mm top a m.cont ks s with
+          match processItems tr mm top a m.cont ks s with
           | none => none
           | some s1 => some (.none, s1)
 
 /-- `for n in node: process_node(n)` (results dropped) -/
-def processKids (mm : Nat → List MetaAttr) : List PT → St → Option St
+def processKids (tr : Heap → Nat → Bool) (mm : Nat → List MetaAttr) : List PT → St → Option St
   | [], s => some s
   | k :: ks, s =>
-    match processNode mm k s with
+    match processNode tr mm k s with
     | none => none
-    | some (_, s1) => processKids mm ks s1
+    | some (_, s1) => processKids tr mm ks s1
 
 /-- `next(n for n in node if type(n) is not Terminal …)`, falling back to the joined text -/
-def processFirstNT (mm : Nat → List MetaAttr) : List PT → St → Option (Val × St)
+def processFirstNT (tr : Heap → Nat → Bool) (mm : Nat → List MetaAttr) : List PT → St → Option (Val × St)
   | [], s => some (.prim true, s)
-  | k :: ks, s => if k.isTerm then processFirstNT mm ks s else processNode mm k s
+  | k :: ks, s => if k.isTerm then processFirstNT tr mm ks s else processNode tr mm k s
 
 /-- the `list / oneormore / zeroormore` branch: every child that is not a separator -/
-def processItems (mm : Nat → List MetaAttr) (top a : Nat) (cont : Bool) : List PT → St → Option St
+def processItems (tr : Heap → Nat → Bool) (mm : Nat → List MetaAttr) (top a : Nat) (cont : Bool) : List PT → St → Option St
   | [], s => some s
   | k :: ks, s =>
-    if k.isSep then processItems mm top a cont ks s
+    if k.isSep then processItems tr mm top a cont ks s
     else
-      match processNode mm k s with
+      match processNode tr mm k s with
       | none => none
       | some (val, s1) =>
         let s2 : St := if cont then { s1 with heap := s1.heap.updAttr top a (AVal.append val) } else s1
-        processItems mm top a cont ks s2
+        processItems tr mm top a cont ks s2
 end
 
 def St.empty : St := { heap := [], stack := [] }
 
 /-- `model = process_node(parse_tree)` on a fresh parser -/
-def build (mm : Nat → List MetaAttr) (root : PT) : Option (Val × St) := processNode mm root St.empty
+def build (tr : Heap → Nat → Bool) (mm : Nat → List MetaAttr) (root : PT) : Option (Val × St) := processNode tr mm root St.empty
 
 end Obj
